@@ -920,6 +920,12 @@ func (m *Manager) configurePersistedExpiry(ctx *loadContext) {
 
 func (m *Manager) processDelayedWills(ctx *loadContext) {
 	for _, will := range ctx.delayedWills {
+		if w, ok := will.(*mqttp.Publish); ok && w.Retain() {
+			if err := m.TopicsMgr.Retain(w); err != nil {
+				m.log.Error("Retain delayed will", zap.Error(err))
+			}
+		}
+
 		if err := m.TopicsMgr.Publish(will); err != nil {
 			m.log.Error("Publish delayed will", zap.Error(err))
 		}
